@@ -51,6 +51,44 @@ theorem miswired_left_alone (b : Body)
     obtain ⟨ins, hne⟩ := h k
     exact absurd (recognize_sound b k hr ins) hne
 
+/-! ## the matcher as written (explicit `mapping` dictionary) -/
+
+/-- the dictionary-based matcher equals the number-based `blockMatch true` whenever block_b is in SSA form -/
+theorem blockMatchDict_eq (a b : Body) (hb : b.wellScoped = true) : blockMatchDict a b = blockMatch true a b := by
+  simp only [Body.wellScoped, Bool.and_eq_true] at hb
+  unfold blockMatchDict blockMatch
+  by_cases hl : a.ops.length = b.ops.length
+  · by_cases hn : a.args.length = b.args.length
+    · simp only [hl, hn, beq_self_eq_true, Bool.true_and, if_true, initMap_self]
+      rw [opsMatchDict_idMap _ _ _ hb.1]
+      by_cases hm : all2 (opMatch true) a.ops b.ops = true
+      · simp only [hm, if_true, Bool.true_and]
+        rw [Bool.eq_iff_iff]; simp only [beq_iff_eq]
+        rw [hl]
+        exact map_refGet_iff hb.2
+      · simp [hm]
+    · have : (a.args.length == b.args.length) = false := by simpa using hn
+      simp [this]
+  · have : (a.ops.length == b.ops.length) = false := by simpa using hl
+    simp [this]
+
+/-- the number-based model `recognize true` IS the dictionary-based code: the identity-mapping abstraction is proved -/
+theorem recognizeDict_eq (b : Body) : recognizeDict b = recognize true b := by
+  unfold recognizeDict recognize
+  congr 1
+  funext k
+  by_cases hg : k.nOperands = b.args.length - 1
+  · have h1 : 1 ≤ k.nOperands := by cases k <;> simp [Kernel.nOperands]
+    rw [blockMatchDict_eq b _ (region_wellScoped k b.args (by omega))]
+  · have : (k.nOperands == b.args.length - 1) = false := by simpa using hg
+    simp [this]
+
+/-- hence soundness holds for the code as written: a body accepted by the dictionary-based matcher computes the
+function of the kernel's region on all inputs -/
+theorem recognize_dict_sound (b : Body) (k : Kernel) (h : recognizeDict b = some k) (ins : List Val) :
+    evalBody b ins = evalBody (equivalentRegion k b.args) ins :=
+  recognize_sound b k (recognizeDict_eq b ▸ h) ins
+
 /-! ## the regions compute the kernels' intended functions (`equivalent_region`, `LowerLinalgBody`) -/
 
 /-- `region_spec` ("expansion by definition", made independent of the definition): for every well-typed
@@ -262,6 +300,28 @@ theorem dispatch_types_fails : ¬ dispatch_statement := by
   rcases hsk with rfl | rfl
   · simp at ht
   · simp at hk
+
+/-- `dispatch_fixed_sound`: with the repair FD15 (shipped, not applied) the FULL dispatch statement holds — the
+accelerator named in `library_call` is in the module and declares the kernel with exactly the op's operand and
+result types. -/
+theorem dispatch_fixed_sound (accs : List Acc) (k : Kernel) (tys : List Nat) (dyn : Bool) (name : String)
+    (h : dispatchFixed accs k tys dyn = some name) :
+    ∃ a ∈ accs, (name = a.name ∨ name = a.name ++ "_stream") ∧
+      ∃ sk ∈ a.supported, sk.kind = k ∧ sk.types = tys := by
+  unfold dispatchFixed at h
+  cases hf : findAccFixed k tys accs with
+  | none => simp [hf] at h
+  | some a =>
+    obtain ⟨hm, hs⟩ := findAccFixed_some hf
+    simp only [hf, Option.map_some, Option.some.injEq] at h
+    refine ⟨a, hm, ?_, ?_⟩
+    · split at h <;> simp [← h]
+    · simp only [matchSupportedFixed, List.any_eq_true, Bool.and_eq_true, beq_iff_eq] at hs
+      exact hs
+
+/-- the D15 witness is not dispatched by the repaired pattern -/
+theorem d15_fixed_undispatched : dispatchFixed [aluAcc] .add [32, 32, 32] false = none := by decide
+example : dispatchFixed [aluAcc, gemmxAcc] .add [32, 32, 32] true = some "snax_gemmx" := by decide
 
 /-- a kernel kind no accelerator of the module declares is never dispatched -/
 theorem dispatch_unsupported (accs : List Acc) (k : Kernel) (tys : List Nat) (dyn : Bool)
@@ -562,6 +622,32 @@ theorem lower_fixed_fires (kb : KBody) (hp : kb.kernel.isParsable = true) (hc : 
     lowerLinalgBodyFixed kb.toMBody = some (expand kb) := by
   simp [lowerLinalgBodyFixed, KBody.toMBody, hp, hc, expand]
 
+/-! ## the pipeline `convert-linalg-to-kernel, convert-kernel-to-linalg` -/
+
+/-- `pipeline_preserves`: recognition followed by expansion (one body, both patterns as they are in /repo)
+keeps the scalar function of every well-typed body — recognised or not, any ops, wiring, widths, inputs.
+No typing hypothesis on the intermediate kernel op: it is derived (`recognize_preserves_welltyped`). -/
+theorem pipeline_preserves (b : Body) (ins outs : List Val) (hev : evalBody b ins = some outs)
+    (hyield : outs.map Val.w = [b.args.getLastD 0]) :
+    evalMBody (pipelineRecognizeExpand b) ins = evalBody b ins := by
+  unfold pipelineRecognizeExpand
+  cases h : recognize true b with
+  | none => exact evalMBody_ofBody b ins
+  | some k =>
+    obtain ⟨ht, hp⟩ := recognize_preserves_welltyped b k h ins outs hev hyield
+    have hins := evalBody_some_widths hev
+    obtain ⟨_, hlen⟩ := recognize_shape h
+    have hne : b.args ≠ [] := by intro h0; rw [h0] at hlen; simp at hlen
+    simp only
+    rw [lower_fixed_preserves (toKernelForm b k).toMBody ins (by simpa [KBody.toMBody, toKernelForm] using hins) ?_,
+      evalMBody_ofKBody, hp]
+    intro kb hkb
+    have := KBody.toMBody_inj hkb
+    subst this
+    simp only [toKernelForm]
+    rw [take_append_getLastD b.args hne]
+    exact ht
+
 /-! ## non-vacuity: concrete inputs meeting the hypotheses -/
 
 /-- i8 x i8 -> i32 mac written with both commutative ops swapped (`muli b a`, `addi prod out`) -/
@@ -608,5 +694,11 @@ example : rescaleBodyFixed ⟨0, 0, [1, 2], [1, 1], 127, -128, false⟩ [32, 8] 
 -- recognize_preserves_welltyped
 example : evalBody macSwapped [⟨8, 0x80#8⟩, ⟨8, 0x80#8⟩, ⟨32, 0x7fffffff#32⟩] = some [⟨32, 0x80003fff#32⟩] ∧
     [⟨32, 0x80003fff#32⟩].map Val.w = [macSwapped.args.getLastD 0] := by decide
+
+-- pipeline_preserves
+example : pipelineRecognizeExpand macSwapped = (equivalentRegion .mac [8, 8, 32]).toMBody := by decide
+
+-- recognize_dict_sound
+example : recognizeDict macSwapped = some .mac := by decide
 
 end SnaxVerif.C18
